@@ -33,6 +33,9 @@ use libp2p_swarm::{
         FullyNegotiatedInbound, FullyNegotiatedOutbound, StreamUpgradeError, SubstreamProtocol,
     },
 };
+#[cfg(libp2p_verif)]
+use libp2p_core::verif_clock::Instant;
+#[cfg(not(libp2p_verif))]
 use web_time::Instant;
 
 use crate::{
